@@ -165,7 +165,7 @@ CHECKS["C10"] = {
 CHECKS["C20"] = {
     "engine": "E1 lattice explorer",
     "jobs": lambda tier: [job("C20.cpp", "C20")],
-    "rule": "(1) unit = (start in {0,0.3,-1.5,100,5000,-7000}, length in {0,2^-20,0.5,1,2.5,10}, residue class of k): every dt = length/k for k = 1..1024 (quick) / 16384 (thorough), each also x(1+-2^-40) and x(1+-1e-7), plus, for k <= 512, dt = (length - rem)/k for rem in {5e-7,2e-6,2e-5,2e-4,2e-3} (k steps falling short by a chosen remainder), plus dt in {1.5 length, 1e-3, 0.01, 0.1, 0.3}: first sample = start exactly, sample i = start + i dt, strictly increasing, none beyond end+1e-6, last within 1e-6 of end, end appended iff short by > 1e-6, final step <= dt; (2) unit = cubic/quintic/septic trajectory (DIM 1 and 3, N in {1,2,3,5}, duration words): batch = pointwise (bitwise), getTrajectoryLength (3 overloads; full range, sub-range, zero length; 4 steps) = left Riemann sum of speed and within dt*int|a| of the Gauss-Legendre arc length; (2b) PPolyND polylines whose speed jumps at every breakpoint, samples landing exactly on breakpoints: length = left Riemann sum with right-continuous speed; (3) unit = factory call zero()/constant() on 6 breakpoint vectors x coefficient count 1..12: initialised on the breakpoints, all derivatives at all probe times exactly 0 / (v,0,0,...); non-trivial = non-degenerate interval / valid breakpoints",
+    "rule": "states = distinct (start, end, dt) triples + trajectories + factory calls; (1) unit = (start in {0,0.3,-1.5,100,5000,-7000}, length in {0,2^-20,0.5,1,2.5,10}, residue class of k): every dt = length/k for k = 1..1024 (quick) / 16384 (thorough), each also x(1+-2^-40) and x(1+-1e-7), plus, for k <= 512, dt = (length - rem)/k for rem in {5e-7,2e-6,2e-5,2e-4,2e-3} (k steps falling short by a chosen remainder), plus dt in {1.5 length, 1e-3, 0.01, 0.1, 0.3}: first sample = start exactly, sample i = start + i dt, strictly increasing, none beyond end+1e-6, last within 1e-6 of end, end appended iff short by > 1e-6, final step <= dt; (2) unit = cubic/quintic/septic trajectory (DIM 1 and 3, N in {1,2,3,5}, duration words): batch = pointwise (bitwise), getTrajectoryLength (3 overloads; full range, sub-range, zero length; 4 steps) = left Riemann sum of speed and within dt*int|a| of the Gauss-Legendre arc length; (2b) PPolyND polylines whose speed jumps at every breakpoint, samples landing exactly on breakpoints: length = left Riemann sum with right-continuous speed; (3) unit = factory call zero()/constant() on 6 breakpoint vectors x coefficient count 1..12: initialised on the breakpoints, all derivatives at all probe times exactly 0 / (v,0,0,...); non-trivial = non-degenerate interval / valid breakpoints",
     "bounds": {"quick": "384 sequence units (about 123k sequences), 9 duration words per (order, DIM, N), 4 factory instantiations", "thorough": "384 sequence units (about 1.97M sequences), all 3^N duration words for N in {1,2,3,5}, 4 factory instantiations"},
     "thresholds": {"sequence contract": "exact / 1e-6 as stated by the property (borderline band 1e-12 excluded)", "length vs Riemann sum": 1e-12, "length vs true arc length": "dt * integral of |a| + 1e-9 relative"},
     "assumptions": ASSUME_COMMON + ["16-point Gauss-Legendre on 8 sub-intervals per piece as the true arc length"],
@@ -176,7 +176,7 @@ CHECKS["C20"] = {
 CHECKS["C17"] = {
     "engine": "E1 lattice explorer",
     "jobs": lambda tier: [job("C17.cpp", "C17")],
-    "rule": "unit = one exponent of the mantissa/exponent lattice (tau = +-m 2^e, T = m 2^e, 16 four-bit mantissas, e in [-60,19], capped at 1e6) or one exponent of the approach lattices c +- m 2^e, e in [-52,-1], towards each critical point c, or one block of 8192 CONSECUTIVE doubles around a critical point (tau around 0 incl. denormals and both signs, +-1, +-1e6; T around 1, 1e-6, 1e6); at every point: toTime > 0 and equal to the closed form (1e-14), toTime(tau) <= toTime(next double), toTime(tau + 16 ulp) > toTime(tau), backward = g T'(tau) (1e-14) and linear in g, toTau(toTime tau) = tau and toTime(toTau T) = T (1e-12), toTau monotone; one-sided derivatives and difference quotients at the switch; identity map bitwise; non-trivial = every unit",
+    "rule": "states = distinct floating-point inputs; unit = one exponent of the mantissa/exponent lattice (tau = +-m 2^e, T = m 2^e, 16 four-bit mantissas, e in [-60,19], capped at 1e6) or one exponent of the approach lattices c +- m 2^e, e in [-52,-1], towards each critical point c, or one block of 8192 CONSECUTIVE doubles around a critical point (tau around 0 incl. denormals and both signs, +-1, +-1e6; T around 1, 1e-6, 1e6); at every point: toTime > 0 and equal to the closed form (1e-14), toTime(tau) <= toTime(next double), toTime(tau + 16 ulp) > toTime(tau), backward = g T'(tau) (1e-14) and linear in g, toTau(toTime tau) = tau and toTime(toTau T) = T (1e-12), toTau monotone; one-sided derivatives and difference quotients at the switch; identity map bitwise; non-trivial = every unit",
     "bounds": {"quick": "2560 lattice points (4-bit mantissas) + approach lattices + 2^17 consecutive doubles around each of 8 critical points", "thorough": "40960 lattice points (8-bit mantissas) + approach lattices + 2^21 consecutive doubles around each of 8 critical points"},
     "thresholds": {"closed form / backward": 1e-14, "round trips": 1e-12, "monotone": "exact between adjacent doubles; strict at 16 ulp"},
     "assumptions": ASSUME_COMMON,
@@ -263,7 +263,7 @@ CHECKS["C15"] = {
 CHECKS["C16"] = {
     "engine": "E1 lattice explorer + exhaustive initialisation histories",
     "jobs": lambda tier: [job("C16.cpp", "C16")],
-    "rule": "unit = (order, DIM in {1,2}, N in {1,2,3}): for EVERY scalar input field (start time, each duration, each waypoint coordinate, each component of the six boundary vectors) x {NaN,+inf,-inf}, 7 duration values on both sides of 1 ms (nextbelow, exact, nextabove, 0, -1, denormal, 0.00099999), 7 size/ordering faults, and all pairs of faults, through both overloads on a fresh optimizer: return value = isValid() = bool(opt) = reference predicate (which knows which boundary fields the order uses), message present iff invalid, checkValidity(&msg) agrees with the predicate on the STORED problem and msg empty iff valid; plus ALL sequences of length <= 3 over 14 initialisations (2 valid problems, 5 invalid kinds, both overloads) on one object; PPolyND: breakpoint counts {0,1,2,5} x coefficient counts {0,1,4,ORDER+1} x row count off by {-1,0,+1} x {constructor, update after a valid state} for 5 instantiations: isInitialized / getNumSegments()==0 / recovery, at(i) throws exactly for i outside [0,n) over {INT_MIN,-2,-1,0..n-1,n,n+1,INT_MAX}",
+    "rule": "unit = (order, DIM in {1,2}, N in {1,2,3}); states = distinct fault placements / initialisation sequences; for EVERY scalar input field (start time, each duration, each waypoint coordinate, each component of the six boundary vectors) x {NaN,+inf,-inf}, 7 duration values on both sides of 1 ms (nextbelow, exact, nextabove, 0, -1, denormal, 0.00099999), 7 size/ordering faults, and all pairs of faults, through both overloads on a fresh optimizer: return value = isValid() = bool(opt) = reference predicate (which knows which boundary fields the order uses), message present iff invalid, checkValidity(&msg) agrees with the predicate on the STORED problem and msg empty iff valid; plus ALL sequences of length <= 3 over 14 initialisations (2 valid problems, 5 invalid kinds, both overloads) on one object; PPolyND: breakpoint counts {0,1,2,5} x coefficient counts {0,1,4,ORDER+1} x row count off by {-1,0,+1} x {constructor, update after a valid state} for 5 instantiations: isInitialized / getNumSegments()==0 / recovery, at(i) throws exactly for i outside [0,n) over {INT_MIN,-2,-1,0..n-1,n,n+1,INT_MAX}",
     "bounds": {"quick": "3 orders x DIM {1,2} x N {1,2,3}: all single faults + all pairs of a reduced fault list, both overloads; 14 + 196 + 2744 histories per (order, DIM)", "thorough": "same (the space is enumerated completely in both tiers)"},
     "thresholds": {"verdicts": "exact"},
     "assumptions": ["built without -ffast-math (under the suite's flags finiteness checks are unreliable)", "the model keeps the stored problem separately from the verdict: a failed time-point call with an empty vector sets the flag and message but leaves the stored problem (and a later checkValidity()) untouched"],
